@@ -126,6 +126,95 @@ macro("const_add", 1, lambda a, p: a[0] + F32(p["k"]),
       lambda o, mv, a, p: o.add(a[0], o.const(np.array(p["k"], F32))),
       lambda mv, p: ["Constant", "Add"], params=lambda rng: {"k": rng.choice([0.5, -1.5, 2.0])},
       versioned=True)
+# ---- operators whose schema changed between opsets 17 and 21 and that have no short numpy meaning here:
+# the reference is the operator at the version it was written in, i.e. the macro alone, built from its own
+# module (a single-version model, nothing to adapt) and run by onnxruntime (`ort_ref`); the operators it
+# emits are read off that single-version model.
+def I64(*a):
+    return np.array(a, np.int64)
+
+
+def _r4(o, x):
+    return o.reshape(x, o.const(I64(1, 1, 2, 3)))
+
+
+def _r2(o, x):
+    return o.reshape(x, o.const(I64(2, 3)))
+
+
+GRID = np.array([[[[-0.6, -0.5], [0.1, -0.4], [0.7, -0.6]], [[-0.5, 0.5], [0.0, 0.4], [0.6, 0.3]]]], F32)
+
+ORT_MACROS = {
+    "grid_sample": lambda o, mv, a, p: _r2(o, o.grid_sample(_r4(o, a[0]), o.const(GRID))),
+    "resize": lambda o, mv, a, p: _r2(o, o.slice(
+        o.resize(_r4(o, a[0]), None, o.const(np.array([1, 1, 2, 2], F32)), mode="nearest"),
+        o.const(I64(0, 0)), o.const(I64(4, 6)), o.const(I64(2, 3)), o.const(I64(2, 2)))),
+    "avg_pool": lambda o, mv, a, p: _r2(o, o.average_pool(_r4(o, a[0]), kernel_shape=[1, 2], pads=[0, 0, 0, 1],
+                                                          count_include_pad=1)),
+    "lp_pool": lambda o, mv, a, p: _r2(o, o.lp_pool(_r4(o, a[0]), kernel_shape=[1, 2], pads=[0, 0, 0, 1])),
+    "dft": lambda o, mv, a, p: o.squeeze(o.slice(
+        (o.dft(o.reshape(a[0], o.const(I64(2, 3, 1))), axis=1) if mv < 20
+         else o.dft(o.reshape(a[0], o.const(I64(2, 3, 1))), None, o.const(np.array(1, np.int64)))),
+        o.const(I64(0)), o.const(I64(1)), o.const(I64(2))), o.const(I64(2))),
+    "equal": lambda o, mv, a, p: o.add(a[0], o.cast(o.equal(a[0], o.abs(a[0])), to=np.float32)),
+    "isinf": lambda o, mv, a, p: o.where(o.isinf(a[0]), o.const(np.array(0, F32)), a[0]),
+    "cast_like": lambda o, mv, a, p: o.cast(o.cast_like(a[0], o.const(np.array(1, np.float64))), to=np.float32),
+    "size": lambda o, mv, a, p: o.add(a[0], o.cast(o.size(a[0]), to=np.float32)),
+    "rlogsum": lambda o, mv, a, p: o.sub(a[0], (
+        o.reduce_log_sum(o.add(o.abs(a[0]), o.const(np.array(1, F32))), axes=[1], keepdims=1) if mv == 17
+        else o.reduce_log_sum(o.add(o.abs(a[0]), o.const(np.array(1, F32))), o.const(I64(1)), keepdims=1))),
+    "rlse": lambda o, mv, a, p: o.sub(a[0], (
+        o.reduce_log_sum_exp(o.tanh(a[0]), axes=[0], keepdims=1) if mv == 17
+        else o.reduce_log_sum_exp(o.tanh(a[0]), o.const(I64(0)), keepdims=1))),
+    "scatter_el": lambda o, mv, a, p: o.scatter_elements(a[0], o.const(np.array([[0, 1, 0]], np.int64)),
+                                                         o.const(np.array([[9., 8, 7]], F32)), axis=0),
+    "scatter_nd": lambda o, mv, a, p: o.scatter_nd(a[0], o.const(np.array([[1]], np.int64)),
+                                                   o.const(np.array([[9., 8, 7]], F32))),
+    "qdq": lambda o, mv, a, p: o.dequantize_linear(
+        o.quantize_linear(a[0], o.const(np.array(0.5, F32)), o.const(np.array(10, np.uint8))),
+        o.const(np.array(0.5, F32)), o.const(np.array(10, np.uint8))),
+    "optional": lambda o, mv, a, p: o.optional_get_element(o.optional(a[0])),
+}
+
+_SINGLE: dict = {}
+
+
+def single(op, mv, p):
+    """The macro alone, built from module `mv` (cached): model, emitted operators, lazily a session."""
+    key = (op, mv, repr(sorted((p or {}).items())))
+    if key not in _SINGLE:
+        import warnings
+
+        from spox import Tensor, argument, build
+
+        with warnings.catch_warnings():
+            warnings.simplefilter("ignore")
+            mac = MACROS[op]
+            xs = [argument(Tensor(np.float32, (2, 3))) for _ in range(mac["arity"])]
+            y = mac["build"](ops(mv), mv, xs, p or {})
+            m = build({f"a{i}": v for i, v in enumerate(xs)}, {"r": y})
+        names = [n.op_type for n in m.graph.node if "Introduce" not in n.name]
+        _SINGLE[key] = {"model": m, "ops": names, "sess": None}
+    return _SINGLE[key]
+
+
+def ort_reference(op, mv, p, args):
+    import onnxruntime as ort
+
+    ent = single(op, mv, p)
+    if ent["sess"] is None:
+        so = ort.SessionOptions()
+        so.log_severity_level = 4
+        so.intra_op_num_threads = 1
+        so.inter_op_num_threads = 1
+        ent["sess"] = ort.InferenceSession(ent["model"].SerializeToString(), so, providers=["CPUExecutionProvider"])
+    return ent["sess"].run(None, {f"a{i}": np.ascontiguousarray(v, dtype=F32) for i, v in enumerate(args)})[0]
+
+
+for _n, _b in ORT_MACROS.items():
+    macro(_n, 1, (lambda n: lambda a, p: None)(_n), _b, (lambda n: lambda mv, p: single(n, mv, p)["ops"])(_n),
+          versioned=True, ort_ref=True)
+
 # static rank made unknown / restored (the input "s" holds [2, 3] at run time)
 macro("dyn", 1, lambda a, p: a[0], lambda o, mv, a, p: o.reshape(a[0], a[1]),
       lambda mv, p: ["Reshape"], taints=True, needs_s=True)
@@ -334,7 +423,10 @@ def np_stmt(st, env, c):
         return e[st["body"]["out"]]
     if op in ML_MACROS:
         return ML_MACROS[op]["np"]([env[a] for a in st["args"]], st.get("p", {})).astype(F32)
-    r = MACROS[op]["np"]([env[a] for a in st["args"]], st.get("p", {}))
+    if MACROS[op].get("ort_ref"):
+        r = ort_reference(op, st["mv"], st.get("p", {}), [env[a] for a in st["args"]])
+    else:
+        r = MACROS[op]["np"]([env[a] for a in st["args"]], st.get("p", {}))
     return np.asarray(r, dtype=F32)
 
 
